@@ -294,7 +294,7 @@ PATH_FACTS = ("validated", "enumeq", "member", "subtype_of", "canonical", "encod
 def rooted(key) -> bool:
     """Does this value key denote (part of) long-lived gateway state (as opposed to a temporary)?"""
     if isinstance(key, tuple):
-        if len(key) >= 2 and key[0] == "root" and key[1] in ROOTS:
+        if len(key) >= 2 and key[0] == "root":
             return True
         if key and key[0] == "global":
             return True
@@ -311,6 +311,17 @@ def protected(fact) -> bool:
         return rooted(fact[2]) or rooted(fact[1])
     if tag in ("truthy", "falsy", "isnone", "notnone"):
         return rooted(fact[1])
+    if tag == "atom":
+        return _param_rooted(fact[1])
+    return False
+
+
+def _param_rooted(key) -> bool:
+    """Mentions a root *parameter* symbol (qos, topic, value ...) rather than long-lived state."""
+    if isinstance(key, tuple):
+        if len(key) == 2 and key[0] == "root" and key[1] not in ROOTS:
+            return True
+        return any(_param_rooted(k) for k in key if isinstance(k, tuple))
     return False
 
 
